@@ -82,6 +82,12 @@ def run(ctx):
     for i in range(ncases):
         n = rng.choice([1, 2, 3, 5, 8, 13, 40]) if rng.chance(9, 10) else 1 + rng.below(40)
         rpus = [rng.choice(pool) for _ in range(n)]
+        if rng.chance(1, 4):
+            # runs of identical frames (static metadata): a range boundary may fall inside a run
+            rpus = []
+            while len(rpus) < n:
+                rpus += [rng.choice(pool)] * (1 + rng.below(5))
+            rpus = rpus[:n]
         with_src = rng.chance(1, 8)
         cfg_json, compact, facts = editorgen.gen_config(rng, n, with_src)
         if i % 25 == 0:
